@@ -38,6 +38,7 @@ type monitors struct {
 	ntResp       map[int64]map[int64]map[string]*proto.EntryId // shard -> term -> node -> head (responses delivered to the coordinator)
 	leadersSeen  map[int64]map[int64]string   // shard -> term -> node observed LEADER
 	nodeTerm     map[string]map[int64]int64   // node -> shard -> last observed term
+	deleted      map[string]map[int64]bool    // node -> shard -> DeleteShard seen since the last observation
 	blReq        map[string]*proto.BecomeLeaderRequest
 	blResp       map[string]map[string]*proto.EntryId // BecomeLeader call id -> NewTerm responders known at send time
 
@@ -57,7 +58,7 @@ type monitors struct {
 func newMonitors(c *chaos) *monitors {
 	return &monitors{c: c, storedTerm: map[int64]int64{}, storedMeta: map[int64]model.ShardMetadata{}, sentTermMax: map[int64]int64{},
 		ntReq: map[string]*proto.NewTermRequest{}, ntResp: map[int64]map[int64]map[string]*proto.EntryId{},
-		leadersSeen: map[int64]map[int64]string{}, nodeTerm: map[string]map[int64]int64{}, blReq: map[string]*proto.BecomeLeaderRequest{}, blResp: map[string]map[string]*proto.EntryId{},
+		leadersSeen: map[int64]map[int64]string{}, nodeTerm: map[string]map[int64]int64{}, deleted: map[string]map[int64]bool{}, blReq: map[string]*proto.BecomeLeaderRequest{}, blResp: map[string]map[string]*proto.EntryId{},
 		fences: map[string]map[int64]*fenceInfo{}, streamTerm: map[string]int64{}, streamShard: map[string]int64{},
 		tagTerm: map[string]int64{}, checkedLeaders: map[string]bool{}}
 }
@@ -67,7 +68,17 @@ func (m *monitors) want(p string) bool {
 	return true
 }
 
+// swapNote marks violations observed in a history that contains a node swap: the swap
+// election protocol has known gaps (known_findings.json), other histories do not.
+func (m *monitors) swapNote() string {
+	if m.c.swaps.Load() > 0 {
+		return " [history includes a node swap]"
+	}
+	return ""
+}
+
 func (m *monitors) fail(prop, class, f string, a ...any) {
+	f += m.swapNote()
 	// a monitor of another property than the one under check still reports (it is a real
 	// violation), but under its own class prefix so that known findings stay specific
 	if prop != m.c.o.Prop {
@@ -160,6 +171,10 @@ func (m *monitors) tap(t *TapMsg) {
 			// an explicitly deleted replica starts from scratch if it is ever re-created
 			delete(m.nodeTerm[t.Dst], req.Shard)
 			delete(m.fences[t.Dst], req.Shard)
+			if m.deleted[t.Dst] == nil {
+				m.deleted[t.Dst] = map[int64]bool{}
+			}
+			m.deleted[t.Dst][req.Shard] = true
 		}
 	case t.Kind == "req" && strings.HasSuffix(meth, "/Truncate"):
 		req := &proto.TruncateRequest{}
@@ -363,13 +378,25 @@ func (m *monitors) checkBecomeLeader(dst string, req *proto.BecomeLeaderRequest,
 	if len(sm.RemovedNodes) > 0 {
 		m.c.r.Count("election_with_removed_nodes", 1)
 	}
+	raw := func(l []model.Server) string {
+		var out []string
+		for _, x := range l {
+			out = append(out, nodeOfAddr(x.GetIdentifier()))
+		}
+		return "[" + strings.Join(out, " ") + "]"
+	}
+	desc := fmt.Sprintf("stored ensemble %s removed %s", raw(sm.Ensemble), raw(sm.RemovedNodes))
+	if len(ens) != len(sm.Ensemble) {
+		m.fail("C19", "ensemble-duplicate-member", "shard %d term %d: %s (a server appears twice in the ensemble)", req.Shard, req.Term, desc)
+		return
+	}
 	if fenced < len(ens)/2+1 {
 		m.fail("C05", "leader-without-fenced-majority", "BecomeLeader(shard %d, term %d) sent to %s after only %d of the %d ensemble members %v had answered NewTerm in that term (responders: %v)",
-			req.Shard, req.Term, dst, fenced, len(ens), keysOf(ens), keysOfE(resp))
+			req.Shard, req.Term, dst, fenced, len(ens), keysOf(ens), keysOfE(resp)+" "+desc)
 		return
 	}
 	if !ens[dst] {
-		m.fail("C05", "leader-outside-ensemble", "BecomeLeader(shard %d, term %d) sent to %s which is not in the ensemble %v being installed", req.Shard, req.Term, dst, keysOf(ens))
+		m.fail("C05", "leader-outside-ensemble", "BecomeLeader(shard %d, term %d) sent to %s which is not in the ensemble being installed: %s", req.Shard, req.Term, dst, desc)
 		return
 	}
 	lh, ok := resp[dst]
@@ -397,13 +424,13 @@ func keysOf(m map[string]bool) []string {
 	sort.Strings(ks)
 	return ks
 }
-func keysOfE(m map[string]*proto.EntryId) []string {
+func keysOfE(m map[string]*proto.EntryId) string {
 	var ks []string
 	for k := range m {
 		ks = append(ks, k)
 	}
 	sort.Strings(ks)
-	return ks
+	return "[" + strings.Join(ks, " ") + "]"
 }
 
 // ---------------------------------------------------------------- quiescent-point sampling
@@ -490,7 +517,12 @@ func (m *monitors) afterEvent() {
 				m.nodeTerm[name] = map[int64]int64{}
 			}
 			if prev, ok := m.nodeTerm[name][s]; ok && v.Term < prev {
-				m.fail("C05", "node-term-decreased", "node %s shard %d: term went from %d to %d", name, s, prev, v.Term)
+				if m.deleted[name][s] && v.Term == -1 {
+					// the replica was deleted on the coordinator's request and re-created empty
+					delete(m.deleted[name], s)
+				} else {
+					m.fail("C05", "node-term-decreased", "node %s shard %d: term went from %d to %d", name, s, prev, v.Term)
+				}
 				m.nodeTerm[name][s] = v.Term
 			} else if !ok || v.Term > prev {
 				m.nodeTerm[name][s] = v.Term
